@@ -37,6 +37,8 @@ TYPE_NORMALISE = [
     (r'::Base\b', '::Base'),
 ]
 
+TYPE_NORMALISE_BASE = tuple(TYPE_NORMALISE)
+
 
 def norm_type(t):
     t = re.sub(r'\b(const|volatile|typename)\b', '', t)
@@ -53,6 +55,8 @@ def strip_ptr(t):
 
 class Lower:
     def __init__(self, ast, unit):
+        # the unit's own normalisation rules: for this unit only (a check builds several units in one process)
+        del TYPE_NORMALISE[len(TYPE_NORMALISE_BASE):]
         for rule in getattr(unit, 'NORMALISE', []):
             if rule not in TYPE_NORMALISE:
                 TYPE_NORMALISE.append(rule)
